@@ -324,11 +324,12 @@ Proof.
   - bind_with (R_rkValue _ _ _ _ _ _ H (getB_nn w) HB).
     bind_with (R_rkValue _ _ _ _ _ _ H (getC_nn w) HC).
     assert (E : objectArith ml o x y s = VErr (VFault 2 ln) (with_reg s (Push (vreg s) (VFault 2 ln)))).
-    { unfold objectArith. bind_with (simple_not_fn s x y (arith_event (op_binop o)) Sx Sy).
-      cbn [is_function].
+    { unfold objectArith.
       destruct x; try discriminate; destruct y; try discriminate; cbn [is_fault orb];
         unfold vbind at 1; unfold vret at 1; unfold vbind at 1; unfold vret at 1;
-        try (apply (fault_R _ _ _ _ _ H Hl)). }
+        match goal with |- vbind (metaOp2 ?a ?b ?ev) _ _ = _ =>
+          rewrite (vbind_eq _ _ _ _ _ _ _ (simple_not_fn s a b ev eq_refl eq_refl)) end;
+        cbn [is_function]; apply (fault_R _ _ _ _ _ H Hl). }
     destruct x; try discriminate; destruct y; try discriminate;
       (unfold vbind at 1; rewrite E; reflexivity).
   - cbn [vtrace with_reg]. exact (R_trace _ _ _ _ H).
